@@ -187,7 +187,7 @@ func (n *Node) setupExec(ctx context.Context) (executor.Executor, error) {
 	}
 
 	if n.stdoutWriter != nil {
-		stdout = io.MultiWriter(n.logWriter, n.stdoutWriter)
+		stdout = io.MultiWriter(n.logWriter, bestEffortWriter{n.stdoutWriter})
 	}
 
 	if n.data.Step.Output != "" {
@@ -205,6 +205,17 @@ func (n *Node) setupExec(ctx context.Context) (executor.Executor, error) {
 	}
 
 	return cmd, nil
+}
+
+// bestEffortWriter keeps the copy of a step's output going when the
+// `stdout:` file rejects a write (a full volume): what the step prints
+// afterwards must still reach its log. The buffered writer behind it keeps
+// the error and reports it at the flush in teardown.
+type bestEffortWriter struct{ w io.Writer }
+
+func (b bestEffortWriter) Write(p []byte) (int, error) {
+	_, _ = b.w.Write(p)
+	return len(p), nil
 }
 
 func (n *Node) getRetryCount() int {
